@@ -270,7 +270,7 @@ class Node(object):
         if changing_individual.priority_class != changing_individual.prev_priority_class:
             self.change_priority_queue(changing_individual)
             if self.c > 0:
-                self.decide_preempt(changing_individual)
+                self.decide_preempt(self.choose_next_customer())
         self.simulation.statetracker.change_state_classchange(self, changing_individual)
         changing_individual.previous_class = changing_individual.next_class
         changing_individual.prev_priority_class = changing_individual.priority_class
